@@ -15,10 +15,15 @@ B. SIGNALLING.  `vcOuts outs`: the views `v` of the outputs `Out.viewChange v _`
    in the queue; `vcWaiting s`: those in the deferred lists `waitingVC ++ waitingProp` (always `[]`: the
    handlers defer `.propose` / `.vote` events only — the hypothesis is needed because `tick` re-queues the
    deferred lists).  One step from ANY state with `vcWaiting s = []` and ANY event `e` (`step_signal`):
-       vcOuts outs ++ vcQueued s' = vcQueued s ++ evVCs [e] ++ [s.view + 1, …, s'.view]
+       vcOuts outs ++ vcQueued s' = vcQueued s ++ evVCs [e] ++ l,   entered s' = entered s ++ l,
+       Climb s.view l s'.view
+   (`entered s`: certified view + 1 of every advancement record of the ghost history — the views ENTERED;
+   `Climb a l b`: `l` strictly increasing, above `a`, ending in `b`, empty iff `a = b`.  Since
+   `EnterViewAfter` a replica that adopts a certificate of view `w ≥ view` enters `w + 1` directly: ONE
+   signal per entered view, none for the views jumped over; the old statement listed `s.view + 1, …, s'.view`)
    — an injected `Ev.viewChange v _` is CARRIED IN THE EQUATION (`evVCs [e] = [v]`; `[]` for every other
    event, `step_signal_noVC`).  Run level (`signalled_run`): with `V` the views signalled in all steps so far
-   (`runV`, `runV_is_runEvents`), `V ++ vcQueued s = [2, …, s.view]` for every run from the initial state
+   (`runV`, `runV_is_runEvents`), `V ++ vcQueued s = entered s`, climbing from 1 to `s.view`, for every run from the initial state
    that delivers no `Ev.viewChange` event (`Ev.noVC`) — hence no view change is skipped
    (`no_view_change_skipped`), none is signalled twice and the order is increasing
    (`signalled_increasing`, `signalled_nodup`), nothing else is signalled (`signalled_sound`).  The
@@ -87,33 +92,50 @@ example (s : RState) : vcWaiting s =
 example (v : Nat) (t : Bool) : evVCs [.viewChange v t] = [v] := rfl
 example (e : Ev) (h : e.noVC = true) : evVCs [e] = [] := evVCs_noVC e h
 
+/-- the views entered so far: certified view + 1 of every advancement record of the ghost history -/
+example (s : RState) : entered s = (s.ghost.filter GRec.isAdv).map GRec.advTo := rfl
+example (f cv : Nat) (t : Bool) : (GRec.adv f cv t).advTo = cv + 1 := rfl
+/-- `Climb a l b`: `l` is strictly increasing, starts above `a`, ends in `b` (`a = b` iff `l = []`) -/
+example (a b : Nat) : Climb a [] b ↔ a = b := Climb.nil_def a b
+example (a x b : Nat) (l : List Nat) : Climb a (x :: l) b ↔ a < x ∧ Climb x l b := Climb.cons_def a x b l
+
 /-- **View changes are signalled, each exactly once, in order — one delivered event** (ANY state `s` in
-whose deferred lists no view-change event waits, ANY event `e`).  With `s'` the state after the step and
-`outs` its outputs: the views signalled in the step followed by the views of the view-change events still
-queued are the views of the view-change events queued before, then that of `e` if it is a view-change
-event, then exactly the views entered in this step, `s.view + 1, …, s'.view`, in order; still no
-view-change event is deferred; the view has not decreased. -/
+whose deferred lists no view-change event waits, ANY event `e`).  RESTATED for `EnterViewAfter` (a view change
+enters the view after the certificate's, possibly jumping over views; the old statement listed
+`s.view + 1, …, s'.view`).  With `s'` the state after the step and `outs` its outputs: the views signalled in
+the step followed by the views of the view-change events still queued are the views of the view-change
+events queued before, then that of `e` if it is a view-change event, then exactly the views `l` ENTERED in
+this step (the ghost history's advancement records grew by exactly these), in order; `l` climbs strictly
+from `s.view` to `s'.view` (all above `s.view`, strictly increasing, the last one is `s'.view`, `l = []` iff
+the view did not change); still no view-change event is deferred; the view has not decreased. -/
 theorem step_signal (k : Keys) (c : RCfg) (s : RState) (e : Ev) (hw : vcWaiting s = []) :
-    vcOuts (step k c s e).2 ++ vcQueued (step k c s e).1 =
-        (vcQueued s ++ evVCs [e]) ++ List.range' (s.view + 1) ((step k c s e).1.view - s.view) ∧
+    (∃ l, vcOuts (step k c s e).2 ++ vcQueued (step k c s e).1 = (vcQueued s ++ evVCs [e]) ++ l ∧
+        entered (step k c s e).1 = entered s ++ l ∧ Climb s.view l (step k c s e).1.view) ∧
       vcWaiting (step k c s e).1 = [] ∧ s.view ≤ (step k c s e).1.view :=
   HsVerif.Model.step_signal k c s e hw
 
 /-- … for an event that is not itself a view-change event -/
 theorem step_signal_noVC (k : Keys) (c : RCfg) (s : RState) (e : Ev) (hw : vcWaiting s = []) (he : e.noVC = true) :
-    vcOuts (step k c s e).2 ++ vcQueued (step k c s e).1 =
-        vcQueued s ++ List.range' (s.view + 1) ((step k c s e).1.view - s.view) ∧
+    (∃ l, vcOuts (step k c s e).2 ++ vcQueued (step k c s e).1 = vcQueued s ++ l ∧
+        entered (step k c s e).1 = entered s ++ l ∧ Climb s.view l (step k c s e).1.view) ∧
       vcWaiting (step k c s e).1 = [] ∧ s.view ≤ (step k c s e).1.view := by
   have := HsVerif.Model.step_signal k c s e hw
+  unfold VCStep at this
   rw [evVCs_noVC e he, List.append_nil] at this
   exact this
 
 /-- the same for `Start` -/
 theorem start_signal (k : Keys) (c : RCfg) (s : RState) (hw : vcWaiting s = []) :
-    vcOuts (start k c s).2 ++ vcQueued (start k c s).1 =
-        vcQueued s ++ List.range' (s.view + 1) ((start k c s).1.view - s.view) ∧
+    (∃ l, vcOuts (start k c s).2 ++ vcQueued (start k c s).1 = vcQueued s ++ l ∧
+        entered (start k c s).1 = entered s ++ l ∧ Climb s.view l (start k c s).1.view) ∧
       vcWaiting (start k c s).1 = [] ∧ s.view ≤ (start k c s).1.view :=
   HsVerif.Model.start_signal k c s hw
+
+/-- what the climbing list of a step means: strictly increasing, every element above the old view and at
+most the new one, the new view is its last element, and it is empty exactly when the view did not change -/
+theorem climb_facts (a b : Nat) (l : List Nat) (h : Climb a l b) :
+    l.Pairwise (· < ·) ∧ (∀ x ∈ l, a < x ∧ x ≤ b) ∧ l.getLast?.getD a = b ∧ (l = [] ↔ a = b) ∧ (a < b → b ∈ l) :=
+  ⟨h.pairwise, h.mem, h.getLast?, h.nil_iff, h.end_mem⟩
 
 /-- the run with signalled views is the run -/
 theorem runV_is_runEvents (k : Keys) (c : RCfg) (es : List Ev) :
@@ -124,49 +146,59 @@ example (k : Keys) (c : RCfg) : (startV k c {}).2 = vcOuts (start k c {}).2 := r
 example (k : Keys) (c : RCfg) (p : RState × List Nat) (e : Ev) (es : List Ev) :
     runV k c p (e :: es) = runV k c ((step k c p.1 e).1, p.2 ++ vcOuts (step k c p.1 e).2) es := rfl
 
-/-- **Run level: all views signalled so far, followed by those still queued, are exactly `2, 3, …, view`**,
-for every run from the initial state whose delivered events are not `Ev.viewChange` events -/
+/-- **Run level: all views signalled so far, followed by those still queued, are exactly the views ENTERED
+so far** (RESTATED for `EnterViewAfter`: was `2, 3, …, view`; a lagging replica that adopts a certificate of
+view `w` enters `w + 1` directly and signals `w + 1` only), which climb strictly from view 1 to the current
+view — for every run from the initial state whose delivered events are not `Ev.viewChange` events -/
 theorem signalled_run (k : Keys) (c : RCfg) (es : List Ev) (hes : ∀ e ∈ es, e.noVC = true) :
     (runV k c (startV k c {}) es).2 ++ vcQueued (runV k c (startV k c {}) es).1 =
-        List.range' 2 ((runV k c (startV k c {}) es).1.view - 1) ∧
+        entered (runV k c (startV k c {}) es).1 ∧
+      Climb 1 (entered (runV k c (startV k c {}) es).1) (runV k c (startV k c {}) es).1.view ∧
       vcWaiting (runV k c (startV k c {}) es).1 = [] ∧ 1 ≤ (runV k c (startV k c {}) es).1.view := by
   have := runV_sig k c es hes _ (startV_sig k c)
-  exact ⟨this.all, this.wait, this.pos⟩
+  exact ⟨this.all, this.climb, this.wait, this.pos⟩
 
-/-- the signalled views are a prefix of `2, 3, …, view` -/
+/-- the signalled views are a prefix of the entered views -/
 theorem signalled_prefix (k : Keys) (c : RCfg) (es : List Ev) (hes : ∀ e ∈ es, e.noVC = true) :
-    (runV k c (startV k c {}) es).2 <+: List.range' 2 ((runV k c (startV k c {}) es).1.view - 1) :=
+    (runV k c (startV k c {}) es).2 <+: entered (runV k c (startV k c {}) es).1 :=
   ⟨_, (signalled_run k c es hes).1⟩
 
 /-- **in increasing order** -/
 theorem signalled_increasing (k : Keys) (c : RCfg) (es : List Ev) (hes : ∀ e ∈ es, e.noVC = true) :
     ((runV k c (startV k c {}) es).2).Pairwise (· < ·) :=
-  (List.pairwise_lt_range' (s := 2) (n := (runV k c (startV k c {}) es).1.view - 1)).sublist
-    (signalled_prefix k c es hes).sublist
+  (signalled_run k c es hes).2.1.pairwise.sublist (signalled_prefix k c es hes).sublist
 
 /-- **none signalled twice** -/
 theorem signalled_nodup (k : Keys) (c : RCfg) (es : List Ev) (hes : ∀ e ∈ es, e.noVC = true) :
     ((runV k c (startV k c {}) es).2).Nodup :=
   (signalled_increasing k c es hes).imp Nat.ne_of_lt
 
-/-- **no view change is skipped**: every view entered so far has been signalled or its signal is queued -/
-theorem no_view_change_skipped (k : Keys) (c : RCfg) (es : List Ev) (hes : ∀ e ∈ es, e.noVC = true) (v : Nat)
-    (h2 : 2 ≤ v) (hv : v ≤ (runV k c (startV k c {}) es).1.view) :
-    v ∈ (runV k c (startV k c {}) es).2 ∨ v ∈ vcQueued (runV k c (startV k c {}) es).1 := by
-  have h := (signalled_run k c es hes).1
-  have : v ∈ List.range' 2 ((runV k c (startV k c {}) es).1.view - 1) := by
-    rw [List.mem_range'_1]; omega
-  rw [← h] at this
-  exact List.mem_append.mp this
+/-- **no view change is skipped** (RESTATED: "every view `2 ≤ v ≤ view`" became "every view ENTERED"): every
+view entered so far — in particular the current one, unless it is still view 1 — has been signalled or its
+signal is queued -/
+theorem no_view_change_skipped (k : Keys) (c : RCfg) (es : List Ev) (hes : ∀ e ∈ es, e.noVC = true) :
+    (∀ v ∈ entered (runV k c (startV k c {}) es).1,
+        v ∈ (runV k c (startV k c {}) es).2 ∨ v ∈ vcQueued (runV k c (startV k c {}) es).1) ∧
+      (2 ≤ (runV k c (startV k c {}) es).1.view →
+        (runV k c (startV k c {}) es).1.view ∈ (runV k c (startV k c {}) es).2 ∨
+          (runV k c (startV k c {}) es).1.view ∈ vcQueued (runV k c (startV k c {}) es).1) := by
+  have h := signalled_run k c es hes
+  have hall : ∀ v ∈ entered (runV k c (startV k c {}) es).1,
+      v ∈ (runV k c (startV k c {}) es).2 ∨ v ∈ vcQueued (runV k c (startV k c {}) es).1 := by
+    intro v hv
+    rw [← h.1] at hv
+    exact List.mem_append.mp hv
+  exact ⟨hall, fun h2 => hall _ (h.2.1.end_mem (by omega))⟩
 
-/-- nothing else is signalled: a signalled view has been entered -/
+/-- nothing else is signalled: a signalled view has been entered (and is between 2 and the current view) -/
 theorem signalled_sound (k : Keys) (c : RCfg) (es : List Ev) (hes : ∀ e ∈ es, e.noVC = true) (v : Nat)
-    (hv : v ∈ (runV k c (startV k c {}) es).2) : 2 ≤ v ∧ v ≤ (runV k c (startV k c {}) es).1.view := by
-  have h := (signalled_run k c es hes).1
-  have : v ∈ List.range' 2 ((runV k c (startV k c {}) es).1.view - 1) := by
-    rw [← h]; exact List.mem_append_left _ hv
-  rw [List.mem_range'_1] at this
-  omega
+    (hv : v ∈ (runV k c (startV k c {}) es).2) :
+    2 ≤ v ∧ v ≤ (runV k c (startV k c {}) es).1.view ∧ v ∈ entered (runV k c (startV k c {}) es).1 := by
+  have h := signalled_run k c es hes
+  have : v ∈ entered (runV k c (startV k c {}) es).1 := by
+    rw [← h.1]; exact List.mem_append_left _ hv
+  have := h.2.1.mem v this
+  exact ⟨by omega, this.2, ‹_›⟩
 
 /-! #### system level -/
 
@@ -178,21 +210,22 @@ theorem sysRunV_is_sysRun (k : Keys) (C : SysCfg) (acts : List SysAct) : (sysRun
   sysRunV_fst k C acts
 
 /-- **In the system of replica models**: along every run in which the adversary delivers no `Ev.viewChange`
-event, for every replica the views signalled so far followed by those still queued are `2, 3, …, view`. -/
+event, for every replica the views signalled so far followed by those still queued are the views it ENTERED
+(RESTATED for `EnterViewAfter`: was `2, 3, …, view`), which climb strictly from view 1 to its view. -/
 theorem signalled_sys (k : Keys) (C : SysCfg) (acts : List SysAct) (hacts : ∀ a ∈ acts, a.noVC = true)
     (i : Nat) (s : RState) (hs : (sysRunV k C acts).1.reps.lookup i = some s) :
-    (sysRunV k C acts).2 i ++ vcQueued s = List.range' 2 (s.view - 1) ∧ vcWaiting s = [] ∧ 1 ≤ s.view := by
+    (sysRunV k C acts).2 i ++ vcQueued s = entered s ∧ Climb 1 (entered s) s.view ∧ vcWaiting s = [] ∧ 1 ≤ s.view := by
   rw [sysRunV_fst] at hs
   have := sysRunV_inv k C acts hacts i s hs
-  exact ⟨this.all, this.wait, this.pos⟩
+  exact ⟨this.all, this.climb, this.wait, this.pos⟩
 
 /-- … hence in increasing order, none twice -/
 theorem signalled_sys_increasing (k : Keys) (C : SysCfg) (acts : List SysAct) (hacts : ∀ a ∈ acts, a.noVC = true)
     (i : Nat) (s : RState) (hs : (sysRunV k C acts).1.reps.lookup i = some s) :
     ((sysRunV k C acts).2 i).Pairwise (· < ·) ∧ ((sysRunV k C acts).2 i).Nodup := by
-  have h := (signalled_sys k C acts hacts i s hs).1
+  have h := signalled_sys k C acts hacts i s hs
   have hp : ((sysRunV k C acts).2 i).Pairwise (· < ·) :=
-    (List.pairwise_lt_range' (s := 2) (n := s.view - 1)).sublist (List.IsPrefix.sublist ⟨_, h⟩)
+    h.2.1.pairwise.sublist (List.IsPrefix.sublist ⟨_, h.1⟩)
   exact ⟨hp, hp.imp Nat.ne_of_lt⟩
 
 /-- **Per action, from ANY reachable state, ANY delivered event**: the views signalled by the step that
@@ -201,7 +234,8 @@ theorem signalled_sys_deliver (k : Keys) (C : SysCfg) (σ : SysState) (hr : Reac
     (s : RState) (hs : σ.reps.lookup i = some s) :
     ∃ s' outs, (sysStep k C σ (.deliver i e)).reps.lookup i = some s' ∧
       stepOuts k C σ (.deliver i e) = some (i, outs) ∧
-      vcOuts outs ++ vcQueued s' = (vcQueued s ++ evVCs [e]) ++ List.range' (s.view + 1) (s'.view - s.view) ∧
+      (∃ l, vcOuts outs ++ vcQueued s' = (vcQueued s ++ evVCs [e]) ++ l ∧ entered s' = entered s ++ l ∧
+        Climb s.view l s'.view) ∧
       vcWaiting s' = [] ∧ s.view ≤ s'.view := by
   obtain ⟨h1, h2⟩ := sysStep_deliver_lookup k C σ i e s hs
   exact ⟨_, _, h1, h2,
@@ -212,7 +246,7 @@ theorem signalled_sys_start (k : Keys) (C : SysCfg) (σ : SysState) (hr : Reach 
     (s : RState) (hs : σ.reps.lookup i = some s) :
     ∃ s' outs, (sysStep k C σ (.start i)).reps.lookup i = some s' ∧
       stepOuts k C σ (.start i) = some (i, outs) ∧
-      vcOuts outs ++ vcQueued s' = vcQueued s ++ List.range' (s.view + 1) (s'.view - s.view) ∧
+      (∃ l, vcOuts outs ++ vcQueued s' = vcQueued s ++ l ∧ entered s' = entered s ++ l ∧ Climb s.view l s'.view) ∧
       vcWaiting s' = [] ∧ s.view ≤ s'.view := by
   obtain ⟨h1, h2⟩ := sysStep_start_lookup k C σ i s hs
   exact ⟨_, _, h1, h2,
@@ -241,9 +275,9 @@ theorem sf_signalled : (sysRunV exKeys exCfg sfActs).2 1 = [2, 3, 4] ∧ (sysRun
   refine ⟨?_, ?_, ?_, ?_, ?_⟩ <;> decide +kernel
 
 /-- `signalled_sys` applied to the run: whatever replica 1's state is, its signalled views `[2, 3, 4]`
-followed by its queued ones are `2, …, view` -/
+followed by its queued ones are the views it entered -/
 example (s : RState) (hs : (sysRunV exKeys exCfg sfActs).1.reps.lookup 1 = some s) :
-    [2, 3, 4] ++ vcQueued s = List.range' 2 (s.view - 1) := by
+    [2, 3, 4] ++ vcQueued s = entered s := by
   have := (signalled_sys exKeys exCfg sfActs sf_signalled.2.2.2.1 1 s hs).1
   rw [sf_signalled.1] at this
   exact this
@@ -256,9 +290,8 @@ theorem nv_signalled : (runV nvKeys nvCfg (startV nvKeys nvCfg {}) nvEvents).2 =
     vcQueued (runV nvKeys nvCfg (startV nvKeys nvCfg {}) nvEvents).1 = [] ∧ (∀ e ∈ nvEvents, e.noVC = true) := by
   refine ⟨?_, ?_, ?_, ?_⟩ <;> decide +kernel
 
-example : (runV nvKeys nvCfg (startV nvKeys nvCfg {}) nvEvents).2 ++ vcQueued (runV nvKeys nvCfg (startV nvKeys nvCfg {}) nvEvents).1 =
-    List.range' 2 3 := by
-  have := (signalled_run nvKeys nvCfg nvEvents nv_signalled.2.2.2).1
+example : Climb 1 (entered (runV nvKeys nvCfg (startV nvKeys nvCfg {}) nvEvents).1) 4 := by
+  have := (signalled_run nvKeys nvCfg nvEvents nv_signalled.2.2.2).2.1
   rw [nv_signalled.2.1] at this
   exact this
 
@@ -293,7 +326,7 @@ theorem signal_counterexample :
     (runV nvKeys nvCfg (startV nvKeys nvCfg {}) [.viewChange 7 false]).1.view = 1 ∧
     (runV nvKeys nvCfg (startV nvKeys nvCfg {}) [.viewChange 7 false]).2 ++
         vcQueued (runV nvKeys nvCfg (startV nvKeys nvCfg {}) [.viewChange 7 false]).1 ≠
-      List.range' 2 ((runV nvKeys nvCfg (startV nvKeys nvCfg {}) [.viewChange 7 false]).1.view - 1) := by
+      entered (runV nvKeys nvCfg (startV nvKeys nvCfg {}) [.viewChange 7 false]).1 := by
   refine ⟨?_, ?_, ?_⟩ <;> decide +kernel
 
 end NonVacuity
